@@ -320,9 +320,9 @@ pub fn paths(sink: &mut Sink) {
         let second = p.parts().nth(1).map(|x| x.as_ref().to_string());
         let out = format!(
             "({}, ({}, {}))",
-            coq::opt(ext.as_ref().map(|e| cseg(e))),
+            coq::opt(ext.as_ref().map(|e| format!("({})", cseg(e)))),
             coq::list(flags.iter().map(|b| coq::b(*b))),
-            coq::opt(second.as_ref().map(|e| cseg(e)))
+            coq::opt(second.as_ref().map(|e| format!("({})", cseg(e))))
         );
         sink.count("path");
         st.push(cpath(&s), out, json!({"path": s, "extension": ext, "starts_with": flags, "second": second}));
